@@ -30,7 +30,9 @@ import (
 	. "verif/harness/codecio"
 	. "verif/harness/hlib"
 
+	"github.com/skycoin/skycoin/src/cipher"
 	"github.com/skycoin/skycoin/src/cipher/encoder"
+	"github.com/skycoin/skycoin/src/coin"
 	"github.com/skycoin/skycoin/src/daemon"
 	"github.com/skycoin/skycoin/src/daemon/gnet"
 )
@@ -361,6 +363,69 @@ func randomMessage(r *Rng) []byte {
 	}
 }
 
+// largeMessage builds a well-formed message of 8–60 KB (hash lists at their 256-entry limit, blocks and transaction
+// lists with many inputs), so that the connection buffer has to grow well beyond one read while it is incomplete.
+func largeMessage(r *Rng) []byte {
+	hashes := func(n int) []cipher.SHA256 {
+		hs := make([]cipher.SHA256, n)
+		for i := range hs {
+			copy(hs[i][:], r.Bytes(32))
+		}
+		return hs
+	}
+	txn := func(nin, nout int) coin.Transaction {
+		t := coin.Transaction{Type: uint8(r.Intn(2)), In: hashes(nin)}
+		copy(t.InnerHash[:], r.Bytes(32))
+		for i := 0; i < nin; i++ {
+			var sg cipher.Sig
+			copy(sg[:], r.Bytes(65))
+			t.Sigs = append(t.Sigs, sg)
+		}
+		for i := 0; i < nout; i++ {
+			var o coin.TransactionOutput
+			o.Address.Version = byte(r.Intn(3))
+			copy(o.Address.Key[:], r.Bytes(20))
+			o.Coins, o.Hours = r.U64(), r.U64()
+			t.Out = append(t.Out, o)
+		}
+		t.Length = uint32(r.U64())
+		return t
+	}
+	for {
+		var m gnet.Message
+		switch r.Intn(4) {
+		case 0:
+			m = &daemon.AnnounceTxnsMessage{Transactions: hashes(256)}
+		case 1:
+			m = &daemon.GetTxnsMessage{Transactions: hashes(256)}
+		case 2:
+			g := &daemon.GiveTxnsMessage{}
+			for k, n := 0, r.Range(1, 6); k < n; k++ {
+				g.Transactions = append(g.Transactions, txn(r.Range(40, 180), r.Range(1, 40)))
+			}
+			m = g
+		default:
+			g := &daemon.GiveBlocksMessage{}
+			for k, n := 0, r.Range(1, 4); k < n; k++ {
+				var b coin.SignedBlock
+				b.Head.BkSeq, b.Head.Time, b.Head.Fee = r.U64(), r.U64(), r.U64()
+				copy(b.Head.PrevHash[:], r.Bytes(32))
+				copy(b.Head.BodyHash[:], r.Bytes(32))
+				copy(b.Sig[:], r.Bytes(65))
+				for j, nt := 0, r.Range(1, 4); j < nt; j++ {
+					b.Body.Transactions = append(b.Body.Transactions, txn(r.Range(20, 120), r.Range(1, 30)))
+				}
+				g.Blocks = append(g.Blocks, b)
+			}
+			m = g
+		}
+		b, err := gnet.EncodeMessage(m)
+		if err == nil && len(b) > 8200 && len(b) < 64000 {
+			return b
+		}
+	}
+}
+
 func chunkStr(cs [][]byte) string {
 	var s []string
 	for _, c := range cs {
@@ -521,6 +586,46 @@ func c22Gen(r *Rng, tier string, emit func(string)) {
 			}
 			rv([][]byte{burst})
 			rv(cutAt(burst, randomCuts(r, len(burst), r.Range(1, 4))))
+		}
+		// large messages (the connection buffer grows to 16–64 KB while one is incomplete) between small ones, through
+		// the real readLoop / receive path under the read sizes that matter: whatever the buffer management does once
+		// a large message has been handed over, the beginning of the next message that arrived in the same read must
+		// survive
+		if i%10 == 5 {
+			var big []byte
+			nf := 0
+			for _, m := range msgs {
+				big = append(big, m...)
+				nf++
+			}
+			for k, nl := 0, r.Range(1, 2); k < nl; k++ {
+				big = append(big, largeMessage(r)...)
+				nf++
+				for n, ns := 0, r.Range(1, 6); n < ns && nf < 28; n++ {
+					big = append(big, randomMessage(r)...)
+					nf++
+				}
+			}
+			rl := func(cs [][]byte) { emit("readloop " + strconv.Itoa(defMax) + " " + chunkStr(cs)) }
+			fixed := func(sz int) [][]byte {
+				var cs [][]byte
+				for o := 0; o < len(big); o += sz {
+					e := o + sz
+					if e > len(big) {
+						e = len(big)
+					}
+					cs = append(cs, big[o:e])
+				}
+				return cs
+			}
+			rl([][]byte{big})
+			rl(fixed(1024))
+			rl(fixed([]int{512, 777, 1000, 4096, 100}[r.Intn(5)]))
+			rl(cutAt(big, randomCuts(r, len(big), r.Range(2, 9))))
+			emit("recv " + strconv.Itoa(defMax) + " " + chunkStr([][]byte{big}))
+			emit("recv " + strconv.Itoa(defMax) + " " + chunkStr(fixed(1000)))
+			frames(defMax, fixed(1024))
+			frames(defMax, cutAt(big, randomCuts(r, len(big), r.Range(2, 9))))
 		}
 		// a bad length prefix spliced in after the k-th message
 		k := r.Intn(nm + 1)
